@@ -3,6 +3,7 @@ package main
 import (
 	"fmt"
 	"strconv"
+	"strings"
 
 	"verif/simrt"
 )
@@ -17,7 +18,7 @@ import (
 
 func init() {
 	register(&Prop{
-		ID: "C19", Level: "fault_enumeration", Quick: 80 * 12, Thorough: 2500 * 12,
+		ID: "C19", Level: "fault_enumeration", Quick: 80 * 21, Thorough: 2500 * 21,
 		Rule:        "trial = (command form, generated valid input); every Write call index k=1..W+1 of the fault-free run x {write_error_once, write_error_sticky, short_write} (+ every Create for toPairAlign directory output) is enumerated, each under several seeded schedules; a trial is non-trivial if at least one injected fault actually fired; distinct = distinct (input, options)",
 		Gen:         genC19,
 		Check:       checkC19,
@@ -28,9 +29,23 @@ func init() {
 	exhaustiveNote["C19/thorough"] = exhaustiveNote["C19/quick"]
 }
 
+// the command forms C19 ranges over: the library entry points, and the real command line writing to --outfile
+var c19Forms = append(append([]string{}, allCmds...), "cli-o:toma", "cli-o:variants", "cli-o:samvariants", "cli-o:snps", "cli-o:snps-agg", "cli-o:closest", "cli-o:closestn", "cli-o:updownlist", "cli-o:topranking")
+
 func genC19(r *Rand, tier string, ord int) *Trial {
-	form := allCmds[ord%len(allCmds)]
-	c := genCmdCase(r, form, caseSize{})
+	form := c19Forms[ord%len(c19Forms)]
+	var c *Case
+	if strings.HasPrefix(form, "cli-o:") {
+		pk := genCmdCase(r, strings.TrimPrefix(form, "cli-o:"), caseSize{})
+		cc, ok := cliCase(pk)
+		if !ok {
+			return nil
+		}
+		cc.Opts.Args = append(cc.Opts.Args, "-o", "result.out")
+		c = cc
+	} else {
+		c = genCmdCase(r, form, caseSize{})
+	}
 	t := &Trial{Kind: form, Case: *c}
 	sched := 3
 	if tier == "thorough" {
